@@ -147,6 +147,11 @@ let replay_one (p : pinfo) (evs : ev array) (y : inst) (st : stats) : unit =
   let nb = ref 0 and na = ref 0 in
   Array.iteri (fun k e -> if is_other_start e then begin
       Hashtbl.replace other_num e.id (!nb + !na); if k < s1_index then incr nb else incr na end) evs;
+  (* the moment the future resolves: T's last section on the result cell before the harness reports the result *)
+  let ret_index = (let r = ref (-1) and stop = ref false in
+                   Array.iteri (fun k e -> if not !stop then begin
+                       if e.kind = "sf" && e.cls = "YDONE" && e.id = y.oid then (stop := true; if e.snap = "dropped" || e.snap = "err" then r := -1)
+                       else if e.kind = "cs" && e.cls = "fres" && e.id = y.fres && e.task = y.tT && k > y.at then r := k end) evs; !r) in
   let s = ref (init true (nat_of_int !nb) (nat_of_int !na) y.body (nat_of_int y.oid) (nat_of_int p.nev)) in
   let cur = ref 0 in
   let div fmt = Printf.ksprintf (fun m -> raise (Diverge (Printf.sprintf "future_sync op %d, event %d: %s" y.oid !cur m))) fmt in
@@ -196,6 +201,7 @@ let replay_one (p : pinfo) (evs : ev array) (y : inst) (st : stats) : unit =
     e.used <- true;
     match e.kind, e.cls with
     | "sf", "POLL" when t = y.tT && !active && k > y.at ->
+      if not !s.pollable && !s.ready.o_waker = Some WTask && not !s.ready.o_sent then ignore (pull_forward y.cr "send" "ready_send_before_poll");
       if not !s.pollable then div "block_on polls the future, but in the model its task has not been woken since its last poll (model: %s)" (show_state !s);
       do_step ATask None "SyncFuture::poll begins"
     | "sf", "DROPFUT" when t = y.tT && !active && k > y.at ->
@@ -212,8 +218,7 @@ let replay_one (p : pinfo) (evs : ev array) (y : inst) (st : stats) : unit =
        | "err" -> div "the future resolved to Err"
        | r ->
          if !s.pc <> PDone then div "the future resolved (%s), the model's task is at %s (model: %s)" r (show_pc !s.pc) (show_state !s);
-         if r <> Printf.sprintf "ok %d" (i !s.uval) then div "the future resolved to %s, the model's value is %d" r (i !s.uval);
-         push "ret");
+         if r <> Printf.sprintf "ok %d" (i !s.uval) then div "the future resolved to %s, the model's value is %d" r (i !s.uval));
       active := false
     | "sf", "OSTART" when e.id = y.oid ->
       if !s.pc <> PCreate then div "create_future() ran, the model's task is at %s (model: %s)" (show_pc !s.pc) (show_state !s);
@@ -322,6 +327,7 @@ let replay_one (p : pinfo) (evs : ev array) (y : inst) (st : stats) : unit =
     | _ -> ()
   and handle_fres (k : int) (e : ev) =
     let t = e.task in
+    if k = ret_index then push "ret";
     if !sigdrop = Some t then begin sigdrop := None; hit "signaller_drop_section" end
     else if t = y.tT && !active && (match !s.pc, !s.sst with
         | PLoop, (SWaitQueue | SWaitSched _) -> true | (PDrainLoop | PDrainPend | PDrainWaker), _ -> true | _ -> false) then begin
@@ -393,5 +399,5 @@ let () =
          | Unsupported why -> incr skipped; Printf.printf "SKIP\t%s\t%s\n" file why)) files;
   let names = List.sort compare (Hashtbl.fold (fun k _ acc -> k :: acc) cov []) in
   Printf.printf "COVER\t%s\n" (String.concat "\t" (List.map (fun k -> Printf.sprintf "%s=%d" k (Hashtbl.find cov k)) names));
-  Printf.printf "FACTS\tstate_dropped_first=%b\n" !facts.f_state_dropped_first;
+  Printf.printf "FACTS\tstate_dropped_first=%b\n" (f_state_dropped_first !facts);
   Printf.printf "SUMMARY\tok=%d\tdiverged=%d\tskipped=%d\tmodel_steps=%d\tlabelled_steps=%d\tevents=%d\tfuture_sync_calls=%d\n" !ok !bad !skipped !steps !labelled !events !calls
